@@ -48,10 +48,21 @@ real_obj(unsigned i)     /* the fifteen real type objects */
 	(t) == &typellong || (t) == &typeullong)
 #define IS_FLT_OBJ(t) ((t) == &typefloat || (t) == &typedouble || (t) == &typeldouble)
 #define INTPROPS (PROPSCALAR|PROPARITH|PROPREAL|PROPINT)
-/* an enumerated type as decl.c:tagspec completes it */
-#define IS_ENUM_OBJ(t) ((t)->kind == TYPEENUM && (t)->prop == INTPROPS && (t)->base != 0 && IS_INT_OBJ((t)->base) && \
-	(t)->size == (t)->base->size && (t)->align == (t)->base->align && \
-	(t)->u.basic.issigned == (t)->base->u.basic.issigned && !(t)->incomplete)
+/* an enumerated type as decl.c:tagspec completes it (a function, not a macro: as a macro the nested dereferences of a
+   symbolic t made CBMC's symbolic execution take a minute) */
+static inline bool
+is_enum_obj(struct type *t)
+{
+	struct type *b;
+
+	if (t->kind != TYPEENUM || t->prop != INTPROPS || t->incomplete)
+		return 0;
+	b = t->base;
+	if (b == 0 || !IS_INT_OBJ(b))
+		return 0;
+	return t->size == b->size && t->align == b->align && t->u.basic.issigned == b->u.basic.issigned;
+}
+#define IS_ENUM_OBJ(t) is_enum_obj(t)
 
 static inline void
 mk_enum(struct type *t, struct type *base)
